@@ -618,6 +618,7 @@ def gen_trace(seed: int, tier: str) -> dict:
         t["pre"] = [{"kind": "explicit_internal", "rate": rp.choice([1.0, 0.5]), "seed": rp.randint(0, 99)}]
     elif k < 0.40 and name_free:
         t["pre"] = [rp.choice([{"kind": "respell_rids", "style": "mixed", "seed": rp.randint(0, 99)},
+                               {"kind": "respell_targets", "style": rp.choice(["mixed", "abs", "dot", "updown"]), "seed": rp.randint(0, 99)},
                                {"kind": "renumber", "family": rp.choice(["charts", "themes", "notes", "media", "embeddings", "layouts", "masters"]),
                                 "mode": rp.choice(["odd", "shift", "sparse"]), "seed": rp.randint(0, 99)}])]
     return t
